@@ -34,6 +34,8 @@ Clauses of the statement and where they are proved, for every tree / every numbe
      `frac_mean_pairwise_both`, `frac_mntd` (both weightings at `Frac`);
      `treemeasure_climb_spec`, `treemeasure_spec`, `treemeasure_current_spec`, `frac_treemeasure_spec`
      (`Tree.mrca` + two climbs = unique path length).
+ Final round: `pdm_three_point`, `upgma_inverts_pdm` (clause (a) composed with clause (d) on the library's tree shape `T`);
+     `nj_four_cherry`, `nj_realises_four` (cherry-picking lemma and NJ inversion proved for four taxa).
  Bridge to the driver's number type: `toRat` is a homomorphism on fractions with non-zero denominator (`Aux.toRat_*`), the
  models are natural in the number type (`Aux.entries_nat`, `Aux.nj_run_rel`, `Aux.up_run_rel`), hence the statements at
  `Frac`: `frac_pdm_spec`, `frac_pdm_lookup_spec`, `frac_nj_rowsum_invariant`, `frac_nj_tree`, `frac_upgma_tree`. -/
@@ -1231,9 +1233,10 @@ variable [Field α]
 additive metric (pendant lengths `Lf`, `Lg`; every other pool member `k` at distance `Lf + u k` resp. `Lg + u k`), the
 pass produces the subtree `(f:Lf, g:Lg)`, the distances of the new node are those of the cherry's parent (`u`), all other
 distances are untouched, and the bookkeeping invariant holds again — i.e. the state is that of the contracted tree.
-MISSING for the full clause "NJ reconstructs the tree": that the Q-minimal pair of an additive metric with positive
-internal edge lengths *is* a cherry (the cherry-picking consistency lemma of Saitou–Nei/Studier–Keppler) and the induction
-over contractions. Clause (d) is therefore tested (generated additive inputs, implementation and model), not proved. -/
+STATUS: this is one step only.  The induction over contractions is `nj_realises_of_cherry_picking_partial`; the cherry-picking
+lemma (the Q-minimal pair of an additive metric with positive internal edges *is* a cherry) is proved for up to four taxa
+(`nj_four_cherry`, `nj_realises_four`, `nj_realises_three`) and NOT for n ≥ 5, where the NJ reconstruction clause is tested
+(generated additive inputs, implementation and model), not proved. -/
 theorem nj_recovers_tree_partial [CharZero α] (s : NJ α) (f g : Nat) (h : NJInv s) (hf : f ∈ s.pool) (hg : g ∈ s.pool)
     (hfg : f ≠ g) (hn : s.pool.length > 2) (Lf Lg : α) (u : Nat → α) (hfg' : s.d f g = Lf + Lg)
     (hu : ∀ k ∈ (s.pool.erase f).erase g, s.d f k = Lf + u k ∧ s.d g k = Lg + u k) :
@@ -1254,8 +1257,8 @@ theorem nj_recovers_tree_partial [CharZero α] (s : NJ α) (f g : Nat) (h : NJIn
 
 /-- (d) **partial**: the one-step lemma of UPGMA's correctness. If the joined pair are siblings of an ultrametric tree (every
 other cluster is equally far from both) the new cluster keeps that distance (its height and child edges: `upgma_ultrametric`,
-`upgma_join_heights`).  MISSING: that a minimal pair of an ultrametric is a sibling
-pair, and the induction; clause (d) for UPGMA is tested, not proved. -/
+`upgma_join_heights`).  Superseded: that a minimal pair of an ultrametric is a sibling pair is proved inside `upgma_join_urel`,
+the induction is `upgma_realises`, the full clause `upgma_recovers_tree` / `upgma_inverts_pdm`. -/
 theorem upgma_recovers_tree_partial [CharZero α] (s : UP α) (f g : Nat) (hf : s.cl f ≠ [])
     (hsib : ∀ k ∈ (s.pool.erase f).erase g, s.d f k = s.d g k) :
     ∀ k ∈ (s.pool.erase f).erase g, upNewDist s f g k = s.d f k := by
@@ -1622,8 +1625,10 @@ end Aux
 
 /-- (b) `mntd_spec`: the mean nearest-taxon summary as the driver computes it — cells read from the compiled, mirrored table
 (`cellOf`, the `dmatrix[a][b]` of the library), either weighting, any filter and normalisation — equals the same mean with
-every cell replaced by the unique-path value between the two taxa: it is the mean, over retained taxa, of the running
-minimum (`nearest_spec`: a true minimum) of the path values to the other retained taxa; a missing cell never occurs. -/
+every cell replaced by the unique-path value between the two taxa; a missing cell never occurs.  The statement is this
+congruence, not an explicit formula: that `meanNearest` is "the mean over retained taxa of the minimum to the other retained taxa"
+is read off its definition (`meanOf` of the per-taxon `minList`) together with `nearest_spec` (`minList` is a true minimum);
+unlike `mean_pairwise_spec` no closed form is stated. -/
 theorem mntd_spec [Field α] [LinearOrder α] (g : α × Nat × Nat → α) (ℓ : T → α) (key : T → κ) (t : T) (h : Good key t)
     (norm : α) (keep : κ → Bool) :
     meanNearest (cellOf (fun e => g (e.d, e.steps, e.mrca)) (table ℓ key t)) norm keep (mapped key t) =
@@ -1670,7 +1675,9 @@ variable [LinearOrder α] [CharZero α]
 
 /-- (d) `upgma_ultrametric` (replaces the definitional `upgma_height_spec`): at every pass of the loop, and in the tree
 returned, all leaves below a pool node lie at the same depth, namely that node's recorded height, and a node created by a
-join has height half the joined distance.  In particular `upgma_tree` always returns an ultrametric tree. -/
+join has height half the joined distance.  In particular `upgma_tree` always returns an ultrametric tree.  This holds for every
+input matrix (branch lengths may then be negative): it is the bookkeeping identity `lf = d/2 − h f`, `h new = lf + h f`, not
+evidence that the tree is the right one — that is `upgma_realises` / `upgma_recovers_tree`. -/
 theorem upgma_ultrametric (n : Nat) (M : Nat → Nat → α) (fuel : Nat) : UPHeights (upRun fuel (upInit n M)) := by
   have inv : ∀ fuel (s : UP α), UPInv (upInit n M).d s → UPHeights s → UPHeights (upRun fuel s) := by
     intro fuel
@@ -2362,35 +2369,7 @@ example := frac_mean_pairwise exTree (by unfold Good; decide) Frac.one (by decid
 section realise
 variable {α : Type}
 
-/-- leaf labels of a result tree, left to right -/
-def NT.leafIds : NT α → List Nat
-  | .leaf i => [i]
-  | .node f _ g _ => NT.leafIds f ++ NT.leafIds g
-
-/-- sum of the edge lengths from the root of `t` down to leaf `i` -/
-def NT.depthOf [Zero α] [Add α] : NT α → Nat → Option α
-  | .leaf j, i => if i = j then some 0 else none
-  | .node f lf g lg, i =>
-    match NT.depthOf f i with
-    | some x => some (x + lf)
-    | none => match NT.depthOf g i with
-      | some y => some (y + lg)
-      | none => none
-
-/-- length of the path between the leaves `i` and `j` of a result tree -/
-def NT.dist [Zero α] [Add α] : NT α → Nat → Nat → Option α
-  | .leaf _, _, _ => none
-  | .node f lf g lg, i, j =>
-    match NT.depthOf f i, NT.depthOf f j with
-    | some _, some _ => NT.dist f i j
-    | some x, none => match NT.depthOf g j with
-      | some y => some ((x + lf) + (y + lg))
-      | none => none
-    | none, some y => match NT.depthOf g i with
-      | some x => some ((x + lg) + (y + lf))
-      | none => none
-    | none, none => NT.dist g i j
-
+-- (`NT.leafIds`, `NT.depthOf`, `NT.dist` live in Model/C14NJ.lean: the driver evaluates them, op `ntdist`)
 namespace Aux
 theorem depthOf_none [Zero α] [Add α] : ∀ (t : NT α) (i : Nat), i ∉ NT.leafIds t → NT.depthOf t i = none
   | .leaf j, i, h => by simp [NT.leafIds] at h; simp [NT.depthOf, h]
@@ -3523,7 +3502,12 @@ end unique2
 section recover2
 variable {α : Type} [Field α] [LinearOrder α] [IsStrictOrderedRing α] [CharZero α]
 
-/-- (d) `upgma_recovers_tree` — the UPGMA clause of the property, in full: for every ultrametric rooted binary tree `src` on the taxa
+/-- (d) `upgma_recovers_tree` — the UPGMA clause, topology included.  NOTE the source here is a tree of the *result* type `NT`
+(rooted, strictly binary, a length on every child edge) and the matrix is its path-length function `NT.dmat` (`NT.dist` with 0 for
+"no path"); `NT.dist` is what the driver evaluates on the trees it returns (op `ntdist`, compared with an independent walk over the
+library's result tree), `NT.Ultra` / `NT.Iso` are specification-side only; the composition with clause (a) on the library's own tree shape `T` (polytomies, unary nodes,
+`None` lengths; matrix = the compiled `table`) is `upgma_inverts_pdm`, which gives the distances (UPGMA cannot return a polytomy).
+For every ultrametric rooted binary tree `src` on the taxa
 `0 … n-1` with positive internal edge lengths, `upgma_tree` applied to the path-length matrix of `src` returns `src` itself up
 to swapping the two children of nodes — same topology, same edge lengths.  (`upgma_realises` + `ultra_three_point` +
 `ultra_unique`; the "minimal pair of an ultrametric is a sibling pair" step is inside `upgma_join_urel`.) -/
@@ -3546,7 +3530,8 @@ example := upgma_recovers_tree (α := ℚ) 3 (.node (.node (.leaf 0) 1 (.leaf 1)
 
 /-- (d, at the driver's own type) `frac_upgma_recovers_tree`: if the `Frac` matrix handed to `drv_c14` denotes the path lengths of
 an ultrametric tree `src` over ℚ with positive internal edges, the tree the driver prints for `upgma` denotes `src` up to
-swapping children. -/
+swapping children.  `hM` is required for *all* index pairs: cells on the diagonal and outside the `n` taxa must denote 0 (`NT.dmat`
+reads 0 there: `dmat_diag`, `dmat_out`); the driver's matrix reader returns 0 outside and the harness writes a zero diagonal. -/
 theorem frac_upgma_recovers_tree (n : Nat) (M : Nat → Nat → Frac) (hv : ∀ a b, (M a b).den ≠ 0) (src : NT ℚ)
     (hM : ∀ a b, toRat (M a b) = NT.dmat src a b) (hu : NT.Ultra src) (hp : NT.PosInternal src)
     (hnd : (NT.leafIds src).Nodup) (hl : (NT.leafIds src).Perm (List.range n)) :
@@ -3971,5 +3956,612 @@ example : ∃ v n m, treePatristic (α := ℚ) (fun _ => 1) true false (freshMas
       rcases hu with rfl | (rfl | rfl | rfl | rfl | rfl) | rfl <;> simp [T.cs, T.taxon])
     (by decide) (by decide)
 example := frac_treemeasure_spec true false (fun _ => 0) 0 3 exTree (by decide) (Or.inl rfl)
+
+
+/-! ## final round: from clause (a) to clause (d) on the library's own tree type -/
+section pdmultra
+variable {α : Type} [Field α] [LinearOrder α] [IsStrictOrderedRing α] (ℓ : T → α) (key : T → Nat)
+
+/-- every leaf of `t` is at depth `H` below the parent-side end of the edge above `t` (`None` lengths read as 0 by `ℓ`) -/
+def LevelT (t : T) (H : α) : Prop := ∀ a ∈ t.leaves.map key, ∃ n, down ℓ key t a = some (H, n)
+/-- no edge length is negative -/
+def NonnegT (t : T) : Prop := ∀ u ∈ t.nodes, 0 ≤ ℓ u
+
+namespace Aux
+theorem sizeL_mem : ∀ (cs : List T) (c : T), c ∈ cs → c.size ≤ T.sizeL cs
+  | [], c, h => by simp at h
+  | c0 :: cs, c, h => by
+    simp only [T.sizeL]
+    rcases List.mem_cons.mp h with rfl | h'
+    · omega
+    · have := sizeL_mem cs c h'; omega
+
+theorem size_pos' (t : T) : 0 < t.size := by cases t; simp [T.size]
+
+theorem key_two_children : ∀ (cs : List T), (leafKeysL key cs).Nodup → ∀ c1 c2 : T, c1 ∈ cs → c2 ∈ cs → c1 ≠ c2 →
+    ∀ a, a ∈ leafKeys key c1 → a ∈ leafKeys key c2 → False
+  | [], _, c1, _, h1, _, _, _, _, _ => by simp at h1
+  | c0 :: cs, hnd, c1, c2, h1, h2, hne, a, ha1, ha2 => by
+    rw [leafKeysL_cons] at hnd
+    have hnd' := List.nodup_append.mp hnd
+    rcases List.mem_cons.mp h1 with rfl | h1' <;> rcases List.mem_cons.mp h2 with rfl | h2'
+    · exact hne rfl
+    · exact hnd'.2.2 a ha1 a (leafKeys_sub_L key h2' ha2) rfl
+    · exact hnd'.2.2 a ha2 a (leafKeys_sub_L key h1' ha1) rfl
+    · exact key_two_children cs hnd'.2.1 c1 c2 h1' h2' hne a ha1 ha2
+
+/-- how the path between two leaves of an internal node runs: inside one child, or across two children at this node -/
+theorem pair_cases (i : Nat) (x l s) (cs : List T) (hnd : (leafKeys key (.node i x l s cs)).Nodup) (a b : Nat)
+    (ha : a ∈ leafKeys key (.node i x l s cs)) (hb : b ∈ leafKeys key (.node i x l s cs)) (hab : a ≠ b) :
+    (∃ c ∈ cs, a ∈ leafKeys key c ∧ b ∈ leafKeys key c ∧ turn ℓ key (.node i x l s cs) a b = turn ℓ key c a b) ∨
+    (∃ xa xb, downL ℓ key cs a = some xa ∧ downL ℓ key cs b = some xb ∧
+      turn ℓ key (.node i x l s cs) a b = some (xa.1 + xb.1, xa.2 + xb.2, i)) := by
+  cases cs with
+  | nil => rw [leafKeys_leaf] at ha hb; simp at ha hb; exact absurd (ha.trans hb.symm) hab
+  | cons c0 cs0 =>
+    rw [leafKeys_node] at hnd ha hb
+    by_cases hex : ∃ c ∈ c0 :: cs0, a ∈ leafKeys key c ∧ b ∈ leafKeys key c
+    · obtain ⟨c, hc, hac, hbc⟩ := hex
+      exact Or.inl ⟨c, hc, hac, hbc, by simp only [turn]; exact turnL_child ℓ key i _ c a b hnd hc hac hbc⟩
+    · right
+      have hno : ∀ c ∈ c0 :: cs0, ¬ (a ∈ leafKeys key c ∧ b ∈ leafKeys key c) := fun c hc hboth => hex ⟨c, hc, hboth⟩
+      obtain ⟨xa, xb, h1, h2, h3⟩ := turnL_at ℓ key i (c0 :: cs0) hnd a b ha hb hno
+      exact ⟨xa, xb, h1, h2, by simp only [turn]; exact h3⟩
+
+theorem level_below (i : Nat) (x l s) (cs : List T) (H : α) (hl : LevelT ℓ key (.node i x l s cs) H) (hne : cs ≠ [])
+    (a : Nat) (ha : a ∈ leafKeys key (.node i x l s cs)) :
+    ∃ n, downL ℓ key cs a = some (H - ℓ (.node i x l s cs), n) := by
+  obtain ⟨n, hn⟩ := hl a ha
+  cases cs with
+  | nil => exact absurd rfl hne
+  | cons c0 cs0 =>
+    simp only [down] at hn
+    cases hd : downL ℓ key (c0 :: cs0) a with
+    | none => simp [hd] at hn
+    | some r =>
+      simp only [hd, Option.some.injEq, Prod.mk.injEq] at hn
+      exact ⟨r.2, by rw [← hn.1]; simp⟩
+
+theorem level_child (i : Nat) (x l s) (cs : List T) (H : α) (hl : LevelT ℓ key (.node i x l s cs) H)
+    (hnd : (leafKeys key (.node i x l s cs)).Nodup) (c : T) (hc : c ∈ cs) :
+    LevelT ℓ key c (H - ℓ (.node i x l s cs)) := by
+  intro a ha
+  have hne : cs ≠ [] := fun e => by rw [e] at hc; simp at hc
+  have hat : a ∈ leafKeys key (.node i x l s cs) := by
+    cases cs with
+    | nil => exact absurd rfl hne
+    | cons c0 cs0 => rw [leafKeys_node]; exact leafKeys_sub_L key hc ha
+  obtain ⟨n, hn⟩ := level_below ℓ key i x l s cs H hl hne a hat
+  obtain ⟨r, hr⟩ := Option.isSome_iff_exists.mp ((down_isSome ℓ key c a).mpr ha)
+  have hnd' : (leafKeysL key cs).Nodup := by
+    cases cs with
+    | nil => exact absurd rfl hne
+    | cons c0 cs0 => rw [leafKeys_node] at hnd; exact hnd
+  have := downL_of_mem ℓ key cs c a r hnd' hc hr
+  rw [hn] at this; injection this with this
+  exact ⟨n, by rw [hr, ← this]⟩
+
+/-- inside a level tree with non-negative lengths, two leaves are at most twice the depth below the node apart; every pair has a path -/
+theorem within_le : ∀ (k : Nat) (t : T), t.size ≤ k → ∀ H, LevelT ℓ key t H → NonnegT ℓ t → (leafKeys key t).Nodup →
+    ∀ a ∈ leafKeys key t, ∀ b ∈ leafKeys key t, a ≠ b →
+      ∃ v, turn ℓ key t a b = some v ∧ v.1 ≤ 2 * (H - ℓ t) := by
+  intro k
+  induction k with
+  | zero => intro t ht; have := size_pos' t; omega
+  | succ k ih =>
+    intro t ht H hl hnn hnd a ha b hb hab
+    cases t with
+    | node i x l s cs =>
+      have hne : cs ≠ [] := by
+        intro e; subst e; rw [leafKeys_leaf] at ha hb; simp at ha hb; exact hab (ha.trans hb.symm)
+      rcases pair_cases ℓ key i x l s cs hnd a b ha hb hab with ⟨c, hc, hac, hbc, he⟩ | ⟨xa, xb, h1, h2, h3⟩
+      · have hsz : c.size ≤ k := by
+          have := sizeL_mem cs c hc; simp only [T.size] at ht; omega
+        have hndc : (leafKeys key c).Nodup := by
+          cases cs with
+          | nil => exact absurd rfl hne
+          | cons c0 cs0 => rw [leafKeys_node] at hnd; exact nodup_child key hnd hc
+        obtain ⟨v, hv, hle⟩ := ih c hsz _ (level_child ℓ key i x l s cs H hl hnd c hc)
+          (fun u hu => hnn u (nodes_child (t := .node i x l s cs) hc hu)) hndc a hac b hbc hab
+        have hcn := hnn c (nodes_child (t := .node i x l s cs) hc (nodes_self c))
+        exact ⟨v, by rw [he]; exact hv, by linarith⟩
+      · obtain ⟨n1, e1⟩ := level_below ℓ key i x l s cs H hl hne a ha
+        obtain ⟨n2, e2⟩ := level_below ℓ key i x l s cs H hl hne b hb
+        rw [e1] at h1; rw [e2] at h2
+        injection h1 with h1; injection h2 with h2
+        refine ⟨_, h3, ?_⟩
+        rw [← h1, ← h2]; simp only; linarith
+end Aux
+
+/-- path length between two leaf keys, 0 if there is no path -/
+def pathLenT (t : T) (a b : Nat) : α := pathVal (fun r => r.1) ℓ key t (a, b)
+
+/-- (a → d) `pdm_three_point` — the bridge from the distance-matrix clause to the UPGMA clause on the library's own tree type.
+For every tree `t` (polytomies, unary nodes, `None` lengths read as 0) whose leaves carry distinct keys, are all at the same depth
+and whose edge lengths are not negative, the unique-path lengths — what `pdm_spec` proves the compiled matrix stores — satisfy the
+strong triangle inequality on every three different leaf taxa. -/
+theorem pdm_three_point : ∀ (k : Nat) (t : T), t.size ≤ k → ∀ H, LevelT ℓ key t H → NonnegT ℓ t → Good key t →
+    ∀ a ∈ t.leaves.map key, ∀ b ∈ t.leaves.map key, ∀ c ∈ t.leaves.map key, a ≠ b → b ≠ c → a ≠ c →
+      pathLenT ℓ key t a c ≤ max (pathLenT ℓ key t a b) (pathLenT ℓ key t b c) := by
+  intro k
+  induction k with
+  | zero => intro t ht; have := size_pos' t; omega
+  | succ k ih =>
+    intro t ht H hl hnn hnd a ha b hb c hc hab hbc hac
+    cases t with
+    | node i x l s cs =>
+      have hne : cs ≠ [] := by
+        intro e; subst e
+        have ha' : a ∈ leafKeys key (.node i x l s []) := ha
+        have hb' : b ∈ leafKeys key (.node i x l s []) := hb
+        rw [leafKeys_leaf] at ha' hb'; simp at ha' hb'; exact hab (ha'.trans hb'.symm)
+      have hnd' : (leafKeys key (.node i x l s cs)).Nodup := hnd
+      set Hc := H - ℓ (.node i x l s cs) with hHc
+      -- value of a pair: inside a child (≤ 2Hc) or across (= 2Hc)
+      have val : ∀ p q, p ∈ leafKeys key (.node i x l s cs) → q ∈ leafKeys key (.node i x l s cs) → p ≠ q →
+          (∃ ch ∈ cs, p ∈ leafKeys key ch ∧ q ∈ leafKeys key ch ∧
+            pathLenT ℓ key (.node i x l s cs) p q = pathLenT ℓ key ch p q ∧ pathLenT ℓ key (.node i x l s cs) p q ≤ 2 * Hc) ∨
+          ((∀ ch ∈ cs, ¬ (p ∈ leafKeys key ch ∧ q ∈ leafKeys key ch)) ∧ pathLenT ℓ key (.node i x l s cs) p q = 2 * Hc) := by
+        intro p q hp hq hpq
+        obtain ⟨v, hv, hle⟩ := within_le ℓ key _ _ (le_refl _) H hl hnn hnd' p hp q hq hpq
+        by_cases hex : ∃ ch ∈ cs, p ∈ leafKeys key ch ∧ q ∈ leafKeys key ch
+        · obtain ⟨ch, hch, hpc, hqc⟩ := hex
+          left
+          refine ⟨ch, hch, hpc, hqc, ?_, by simp only [pathLenT, pathVal, hv]; exact hle⟩
+          have : turn ℓ key (.node i x l s cs) p q = turn ℓ key ch p q := by
+            cases cs with
+            | nil => exact absurd rfl hne
+            | cons c0 cs0 =>
+              rw [leafKeys_node] at hnd'
+              simp only [turn]; exact turnL_child ℓ key i _ ch p q hnd' hch hpc hqc
+          simp only [pathLenT, pathVal, this]
+        · right
+          have hno : ∀ ch ∈ cs, ¬ (p ∈ leafKeys key ch ∧ q ∈ leafKeys key ch) := fun ch hch hb' => hex ⟨ch, hch, hb'⟩
+          refine ⟨hno, ?_⟩
+          cases cs with
+          | nil => exact absurd rfl hne
+          | cons c0 cs0 =>
+            have hnd2 := hnd'
+            rw [leafKeys_node] at hnd2 hp hq
+            obtain ⟨xa, xb, h1, h2, h3⟩ := turnL_at ℓ key i (c0 :: cs0) hnd2 p q hp hq hno
+            obtain ⟨n1, e1⟩ := level_below ℓ key i x l s (c0 :: cs0) H hl hne p (by rw [leafKeys_node]; exact hp)
+            obtain ⟨n2, e2⟩ := level_below ℓ key i x l s (c0 :: cs0) H hl hne q (by rw [leafKeys_node]; exact hq)
+            rw [e1] at h1; rw [e2] at h2
+            injection h1 with h1; injection h2 with h2
+            simp only [pathLenT, pathVal, turn, h3]
+            rw [← h1, ← h2]; simp only; ring
+      rcases val a c ha hc hac with ⟨ch, hch, hach, hcch, heq, hle⟩ | ⟨hno, heq⟩
+      · -- a and c in one child
+        by_cases hbch : b ∈ leafKeys key ch
+        · -- all three in that child: induction
+          have hsz : ch.size ≤ k := by
+            have := sizeL_mem cs ch hch; simp only [T.size] at ht; omega
+          have hndc : Good key ch := by
+            cases cs with
+            | nil => exact absurd rfl hne
+            | cons c0 cs0 => rw [leafKeys_node] at hnd'; exact nodup_child key hnd' hch
+          have r := ih ch hsz _ (level_child ℓ key i x l s cs H hl hnd' ch hch)
+            (fun u hu => hnn u (nodes_child (t := .node i x l s cs) hch hu)) hndc a hach b hbch c hcch hab hbc hac
+          rcases val a b ha hb hab with ⟨ch1, hch1, ha1, hb1, heq1, _⟩ | ⟨hno1, _⟩
+          · rcases val b c hb hc hbc with ⟨ch2, hch2, hb2, hc2, heq2, _⟩ | ⟨hno2, _⟩
+            · -- same child for all pairs (keys are in one child only)
+              have e1 : pathLenT ℓ key (.node i x l s cs) a b = pathLenT ℓ key ch a b := by
+                have : turn ℓ key (.node i x l s cs) a b = turn ℓ key ch a b := by
+                  cases cs with
+                  | nil => exact absurd rfl hne
+                  | cons c0 cs0 =>
+                    rw [leafKeys_node] at hnd'
+                    simp only [turn]; exact turnL_child ℓ key i _ ch a b hnd' hch hach hbch
+                simp only [pathLenT, pathVal, this]
+              have e2 : pathLenT ℓ key (.node i x l s cs) b c = pathLenT ℓ key ch b c := by
+                have : turn ℓ key (.node i x l s cs) b c = turn ℓ key ch b c := by
+                  cases cs with
+                  | nil => exact absurd rfl hne
+                  | cons c0 cs0 =>
+                    rw [leafKeys_node] at hnd'
+                    simp only [turn]; exact turnL_child ℓ key i _ ch b c hnd' hch hbch hcch
+                simp only [pathLenT, pathVal, this]
+              rw [heq, e1, e2]; exact r
+            · exact absurd ⟨hbch, hcch⟩ (hno2 ch hch)
+          · exact absurd ⟨hach, hbch⟩ (hno1 ch hch)
+        · -- b elsewhere: (a,b) runs across this node
+          rcases val a b ha hb hab with ⟨ch1, hch1, ha1, hb1, _, _⟩ | ⟨_, heq1⟩
+          · -- a in ch and ch1: same child by distinctness of keys, contradiction with b ∉ ch
+            exfalso
+            have : ch1 = ch ∨ ch1 ≠ ch := em _
+            rcases this with e | e
+            · exact hbch (e ▸ hb1)
+            · -- a would be in two different children: impossible under Nodup
+              cases cs with
+              | nil => exact absurd rfl hne
+              | cons c0 cs0 =>
+                rw [leafKeys_node] at hnd'
+                exact key_two_children key (c0 :: cs0) hnd' ch ch1 hch hch1 (Ne.symm e) a hach ha1
+          · rw [heq1]; exact le_trans hle (le_max_left _ _)
+      · -- (a,c) runs across this node: one of the other two pairs does too
+        rw [heq]
+        rcases val a b ha hb hab with ⟨ch1, hch1, ha1, hb1, _, _⟩ | ⟨_, heq1⟩
+        · rcases val b c hb hc hbc with ⟨ch2, hch2, hb2, hc2, _, _⟩ | ⟨_, heq2⟩
+          · exfalso
+            have : ch1 = ch2 ∨ ch1 ≠ ch2 := em _
+            rcases this with e | e
+            · exact hno ch1 hch1 ⟨ha1, e ▸ hc2⟩
+            · cases cs with
+              | nil => exact absurd rfl hne
+              | cons c0 cs0 =>
+                rw [leafKeys_node] at hnd'
+                exact key_two_children key (c0 :: cs0) hnd' ch1 ch2 hch1 hch2 e b hb1 hb2
+          · rw [heq2]; exact le_max_right _ _
+        · rw [heq1]; exact le_max_left _ _
+end pdmultra
+
+
+section pdmupgma
+variable {α : Type} [Field α] [LinearOrder α] [IsStrictOrderedRing α] [CharZero α] (ℓ : T → α) (key : T → Nat)
+
+/-- (a ∘ d) `upgma_inverts_pdm` — the composition the property describes, on the definitions the driver runs: compile the distance
+matrix of a tree `t` of the library's own shape (`table`, op `pdm`: polytomies, unary nodes, `None` = 0) and hand its cells
+(`cellOf`, the `dmatrix[a][b]` read) to `upgma_tree` (`upgmaTree`, op `upgma`).  If the leaves of `t` carry the taxa `0 … n-1`, are
+all at one depth and no edge is negative, the tree returned has exactly those taxa as leaves, the path length between any two of
+them is exactly the unique-path length in `t`, and it is ultrametric.  (Topology: `upgma_recovers_tree` for binary sources with
+positive internal edges; a polytomous source cannot be returned by UPGMA, its distances are.) -/
+theorem upgma_inverts_pdm (t : T) (n : Nat) (hn : 1 ≤ n) (H : α) (hl : LevelT ℓ key t H) (hnn : NonnegT ℓ t) (hg : Good key t)
+    (hperm : (t.leaves.map key).Perm (List.range n)) :
+    ∃ r, upgmaTree n (fun i j => cellOf (fun e => e.d) (table ℓ key t) i j) = some r ∧
+      (NT.leafIds r).Perm (List.range n) ∧
+      (∀ i < n, ∀ j < n, i ≠ j → NT.dist r i j = some (pathLenT ℓ key t i j)) ∧
+      ∃ H' : α, ∀ i < n, NT.depthOf r i = some H' := by
+  have hmem : ∀ i, i < n → i ∈ t.leaves.map key := fun i hi => hperm.mem_iff.mpr (List.mem_range.mpr hi)
+  have hcell : ∀ i < n, ∀ j < n, i ≠ j → cellOf (fun e : Entry Nat α => e.d) (table ℓ key t) i j = pathLenT ℓ key t i j := by
+    intro i hi j hj hij
+    obtain ⟨e, h1, h2⟩ := pdm_lookup_spec ℓ key t hg i j hij (hmem i hi) (hmem j hj)
+    simp only [lookup] at h1
+    simp only [cellOf, pathLenT, pathVal]
+    rw [h1, h2]
+  have hsym : ∀ i j, pathLenT ℓ key t i j = pathLenT ℓ key t j i := fun i j => by
+    simp only [pathLenT, pathVal, turn_symm ℓ key t i j]
+  have hD : ∀ i < n, ∀ j < n, i ≠ j →
+      (upInit n (fun i j => cellOf (fun e : Entry Nat α => e.d) (table ℓ key t) i j)).d i j = pathLenT ℓ key t i j := by
+    intro i hi j hj hij
+    simp only [upInit]
+    split
+    · exact hcell i hi j hj hij
+    · rw [hcell j hj i hi (Ne.symm hij)]; exact hsym j i
+  obtain ⟨r, hr, hp, hd, hH⟩ := upgma_realises n _ hn (by
+    intro i j k hi hj hk hij hjk hik
+    rw [hD i hi k hk hik, hD i hi j hj hij, hD j hj k hk hjk]
+    exact pdm_three_point ℓ key _ t (le_refl _) H hl hnn hg i (hmem i hi) j (hmem j hj) k (hmem k hk) hij hjk hik)
+  exact ⟨r, hr, hp, fun i hi j hj hij => by rw [hd i hi j hj hij, hD i hi j hj hij], hH⟩
+end pdmupgma
+
+/-- non-vacuity: a tree of the library's shape with a polytomy and a unary node, all leaves at depth 2:
+`((t0:1, t1:1, (t3:1/2):1/2):1, t2:2)` -/
+def exUltra : T :=
+  .node 0 none none none
+    [.node 1 none none none
+      [.node 2 (some 0) none none [], .node 3 (some 1) none none [], .node 4 none none none [.node 5 (some 3) none none []]],
+     .node 6 (some 2) none none []]
+def exUltraLen (u : T) : ℚ := if u.id = 0 then 0 else if u.id = 6 then 2 else if u.id = 4 ∨ u.id = 5 then 1 / 2 else 1
+
+example :=
+  upgma_inverts_pdm exUltraLen taxonKey exUltra 4 (by decide) 2
+    (by
+      intro a ha
+      have : a = 0 ∨ a = 1 ∨ a = 3 ∨ a = 2 := by simpa [exUltra, T.leaves, T.leavesL, taxonKey, T.taxon] using ha
+      rcases this with rfl | rfl | rfl | rfl
+      · exact ⟨3, by simp [exUltra, down, downL, taxonKey, T.taxon, exUltraLen, T.id]; norm_num⟩
+      · exact ⟨3, by simp [exUltra, down, downL, taxonKey, T.taxon, exUltraLen, T.id]; norm_num⟩
+      · exact ⟨4, by simp [exUltra, down, downL, taxonKey, T.taxon, exUltraLen, T.id]; norm_num⟩
+      · exact ⟨2, by simp [exUltra, down, downL, taxonKey, T.taxon, exUltraLen, T.id]⟩)
+    (by
+      intro u hu
+      simp only [exUltra, T.nodes, T.nodesL, List.mem_cons, List.mem_append, List.not_mem_nil, or_false, List.append_nil] at hu
+      rcases hu with rfl | (rfl | rfl | rfl | rfl | rfl) | rfl <;> simp [exUltraLen, T.id])
+    (by unfold Good; decide) (by decide)
+
+
+/-! ### neighbour joining on four taxa: the first non-trivial instance of the cherry-picking lemma -/
+section njfour
+variable {α : Type} [Field α] [LinearOrder α] [IsStrictOrderedRing α]
+
+/-- strict four-point condition for four pool members: of the three pairing sums one is strictly smaller than the other two,
+which are equal (a quartet tree whose internal edge is positive) -/
+def QuartetAt (d : Nat → Nat → α) (p q r s : Nat) : Prop :=
+  (d p q + d r s < d p r + d q s ∧ d p r + d q s = d p s + d q r) ∨
+  (d p r + d q s < d p q + d r s ∧ d p q + d r s = d p s + d q r) ∨
+  (d p s + d q r < d p q + d r s ∧ d p q + d r s = d p r + d q s)
+
+namespace Aux
+theorem perm_four {pool : List Nat} (hnd : pool.Nodup) (h4 : pool.length = 4) (f g k l : Nat)
+    (hf : f ∈ pool) (hg : g ∈ pool) (hk : k ∈ pool) (hl : l ∈ pool)
+    (hd : [f, g, k, l].Nodup) : [f, g, k, l].Perm pool :=
+  (List.subperm_of_subset hd (by intro x hx; simp at hx; rcases hx with rfl | rfl | rfl | rfl <;> assumption)).perm_of_length_le
+    (by simp [h4])
+
+theorem row_four (s : NJ α) (h : NJInv s) (h4 : s.pool.length = 4) (f g k l : Nat)
+    (hf : f ∈ s.pool) (hg : g ∈ s.pool) (hk : k ∈ s.pool) (hl : l ∈ s.pool) (hd : [f, g, k, l].Nodup) :
+    s.x f = s.d f g + s.d f k + s.d f l := by
+  have hp := perm_four h.nodup h4 f g k l hf hg hk hl hd
+  rw [h.rows f hf, ← ((hp.filter (fun m => decide (m ≠ f))).map (s.d f)).sum_eq]
+  simp only [List.nodup_cons, List.mem_cons, List.mem_singleton, not_or, List.not_mem_nil, not_false_eq_true,
+    List.nodup_nil, and_true] at hd
+  obtain ⟨⟨h1, h2, h3⟩, _⟩ := hd
+  simp [List.filter_cons, Ne.symm h1, Ne.symm h2, Ne.symm h3, add_assoc]
+end Aux
+
+variable [CharZero α]
+
+/-- the Q-criterion on four pool members whose distances form a quartet with a positive internal edge picks a cherry -/
+theorem nj_four_cherry (s : NJ α) (h : NJInv s) (h4 : s.pool.length = 4)
+    (hq : ∀ p ∈ s.pool, ∀ q ∈ s.pool, ∀ r ∈ s.pool, ∀ t ∈ s.pool, [p, q, r, t].Nodup → QuartetAt s.d p q r t)
+    (f g : Nat) (hp : njPick s = some (f, g)) : Cherry s f g := by
+  obtain ⟨hf, hg, hfg⟩ := nj_pick_mem s h.nodup f g hp
+  have hlen : ((s.pool.erase f).erase g).length = 2 := by
+    rw [List.length_erase_of_mem ((List.mem_erase_of_ne (Ne.symm hfg)).mpr hg), List.length_erase_of_mem hf]; omega
+  obtain ⟨k, l, hkl⟩ := List.length_eq_two.mp hlen
+  have hmem : ∀ m, m ∈ (s.pool.erase f).erase g → m ∈ s.pool ∧ m ≠ f ∧ m ≠ g := by
+    intro m hm
+    have h1 : m ∈ s.pool.erase f := List.mem_of_mem_erase hm
+    exact ⟨List.mem_of_mem_erase h1, fun e => by subst e; exact (List.Nodup.mem_erase_iff h.nodup).mp h1 |>.1 rfl,
+      fun e => by subst e; exact (List.Nodup.mem_erase_iff (h.nodup.erase _)).mp hm |>.1 rfl⟩
+  have hk := hmem k (by rw [hkl]; simp)
+  have hl := hmem l (by rw [hkl]; simp)
+  have hkl' : k ≠ l := by
+    have := (h.nodup.erase f).erase g; rw [hkl] at this; simpa using this
+  have nd : ∀ a b c e : Nat, a ≠ b → a ≠ c → a ≠ e → b ≠ c → b ≠ e → c ≠ e → [a, b, c, e].Nodup := by
+    intro a b c e h1 h2 h3 h4 h5 h6; simp [h1, h2, h3, h4, h5, h6]
+  have ndf := nd f g k l hfg (Ne.symm hk.2.1) (Ne.symm hl.2.1) (Ne.symm hk.2.2) (Ne.symm hl.2.2) hkl'
+  -- the four row sums
+  have rf := row_four s h h4 f g k l hf hg hk.1 hl.1 ndf
+  have rg := row_four s h h4 g f k l hg hf hk.1 hl.1 (nd g f k l (Ne.symm hfg) (Ne.symm hk.2.2) (Ne.symm hl.2.2) (Ne.symm hk.2.1) (Ne.symm hl.2.1) hkl')
+  have rk := row_four s h h4 k f g l hk.1 hf hg hl.1 (nd k f g l hk.2.1 hk.2.2 hkl' hfg (Ne.symm hl.2.1) (Ne.symm hl.2.2))
+  have rl := row_four s h h4 l f g k hl.1 hf hg hk.1 (nd l f g k hl.2.1 hl.2.2 (Ne.symm hkl') hfg (Ne.symm hk.2.1) (Ne.symm hk.2.2))
+  -- minimality of Q(f,g)
+  simp only [njPick, Option.map_eq_some_iff] at hp
+  obtain ⟨r, hr, he⟩ := hp
+  obtain ⟨q1, q2, _⟩ := argmin_le (qval s) _ none r (by simp) hr
+  rw [he] at q1
+  have qsymm : ∀ a ∈ s.pool, ∀ b ∈ s.pool, qval s (a, b) = qval s (b, a) := by
+    intro a ha b hb; simp only [qval, h.symm a ha b hb]; ring
+  have qle : ∀ a ∈ s.pool, ∀ b ∈ s.pool, a ≠ b → qval s (f, g) ≤ qval s (a, b) := by
+    intro a ha b hb hab
+    rcases mem_pairsOf s.pool a b hab ha hb with hm | hm
+    · have := q2 _ hm; rw [q1] at this; exact this
+    · have := q2 _ hm; rw [q1] at this; rw [qsymm a ha b hb]; exact this
+  have m1 := qle f hf k hk.1 (Ne.symm hk.2.1)
+  have m2 := qle f hf l hl.1 (Ne.symm hl.2.1)
+  have c2 : ((s.pool.length - 2 : Nat) : α) = 2 := by rw [h4]; norm_num
+  simp only [qval, c2, rf, rg, rk, rl] at m1 m2
+  have sgf := h.symm g hg f hf; have skf := h.symm k hk.1 f hf; have slf := h.symm l hl.1 f hf
+  have skg := h.symm k hk.1 g hg; have slg := h.symm l hl.1 g hg; have slk := h.symm l hl.1 k hk.1
+  rw [sgf, skf, skg] at m1
+  rw [sgf, slf, slg, slk] at m2
+  have A1 : s.d f g + s.d k l ≤ s.d f k + s.d g l := by linarith
+  have A2 : s.d f g + s.d k l ≤ s.d f l + s.d g k := by linarith
+  have hB : s.d f k + s.d g l = s.d f l + s.d g k := by
+    rcases hq f hf g hg k hk.1 l hl.1 ndf with ⟨_, e⟩ | ⟨lt, _⟩ | ⟨lt, _⟩
+    · exact e
+    · exact absurd A1 (not_le.mpr lt)
+    · exact absurd A2 (not_le.mpr lt)
+  have h2 : (2 : α) ≠ 0 := by exact_mod_cast (show (2 : Nat) ≠ 0 by decide)
+  refine ⟨(s.d f g + s.d f k - s.d g k) / 2, (s.d f g + s.d g k - s.d f k) / 2,
+    fun m => (s.d f m + s.d g m - s.d f g) / 2, by field_simp; ring, ?_⟩
+  intro m hm
+  rw [hkl] at hm; simp at hm
+  rcases hm with rfl | rfl
+  · constructor <;> (field_simp; ring)
+  · constructor
+    · field_simp; linarith
+    · field_simp; linarith
+end njfour
+
+
+section njfour2
+variable {α : Type} [Field α] [LinearOrder α] [IsStrictOrderedRing α] [CharZero α]
+
+namespace Aux
+theorem flat_len_one {β : Type} (F : Nat → List β) (hF : ∀ k, F k ≠ []) : ∀ l : List Nat,
+    (l.flatMap F).length = l.length → ∀ k ∈ l, (F k).length = 1
+  | [], _, k, hk => by simp at hk
+  | x :: l, h, k, hk => by
+    simp only [List.flatMap_cons, List.length_append, List.length_cons] at h
+    have h1 := List.length_pos_iff.mpr (hF x)
+    have h2 := length_le_flatMap F hF l
+    rcases List.mem_cons.mp hk with rfl | hk'
+    · omega
+    · exact flat_len_one F hF l (by omega) k hk'
+
+theorem leaf_of_single {α : Type} : ∀ t : NT α, (NT.leafIds t).length = 1 → ∃ i, t = .leaf i
+  | .leaf i, _ => ⟨i, rfl⟩
+  | .node f _ g _, h => by
+    have h1 := List.length_pos_iff.mpr (leafIds_ne_nil f)
+    have h2 := List.length_pos_iff.mpr (leafIds_ne_nil g)
+    simp only [NT.leafIds, List.length_append] at h; omega
+end Aux
+
+/-- (d) `nj_realises_four` — neighbour joining inverts every quartet metric with a positive internal edge: for four taxa whose
+distances satisfy the strict four-point condition (in every arrangement of the four taxa) and are symmetric, `nj_tree` returns a
+tree on the four taxa with exactly the input path lengths.  Here the hypothesis `hch` of
+`nj_realises_of_cherry_picking_partial` is *proved*: with four pool members the Q-minimal pair is the cherry of the quartet
+(`nj_four_cherry`), with three any pair is. -/
+theorem nj_realises_four (d : Nat → Nat → α) (hd : ∀ a < 4, ∀ b < 4, d a b = d b a)
+    (hq : ∀ p < 4, ∀ q < 4, ∀ r < 4, ∀ t < 4, [p, q, r, t].Nodup → QuartetAt d p q r t) :
+    ∃ r, njTree 4 d = some r ∧ (NT.leafIds r).Perm (List.range 4) ∧
+      ∀ i < 4, ∀ j < 4, i ≠ j → NT.dist r i j = some (d i j) := by
+  apply nj_realises_of_cherry_picking_partial 4 d hd (by decide)
+  intro s h hlen f g hp
+  have hle := nrel_pool_le d 4 s h
+  by_cases h3 : s.pool.length = 3
+  · obtain ⟨hf, hg, hfg⟩ := nj_pick_mem s h.inv.nodup f g hp
+    exact cherry_of_three s h.inv.symm h.inv.nodup h3 f g hf hg hfg
+  · have h4 : s.pool.length = 4 := by omega
+    -- every pool node is a single taxon
+    have hone := flat_len_one (fun k => NT.leafIds (s.sub k)) (fun k => leafIds_ne_nil _) s.pool
+      (by rw [h.cover.length_eq, List.length_range, h4])
+    have hleaf : ∀ a ∈ s.pool, ∃ i, s.sub a = .leaf i ∧ i < 4 := by
+      intro a ha
+      obtain ⟨i, hi⟩ := leaf_of_single _ (hone a ha)
+      refine ⟨i, hi, ?_⟩
+      have : i ∈ s.pool.flatMap fun k => NT.leafIds (s.sub k) := List.mem_flatMap.mpr ⟨a, ha, by rw [hi]; simp [NT.leafIds]⟩
+      exact List.mem_range.mp (h.cover.mem_iff.mp this)
+    have hdist : ∀ a ∈ s.pool, ∀ b ∈ s.pool, a ≠ b → ∀ i j, s.sub a = .leaf i → s.sub b = .leaf j → s.d a b = d i j ∧ i ≠ j := by
+      intro a ha b hb hab i j hi hj
+      obtain ⟨x, y, hx, hy, e⟩ := h.cross a ha b hb hab i (by rw [hi]; simp [NT.leafIds]) j (by rw [hj]; simp [NT.leafIds])
+      rw [hi] at hx; rw [hj] at hy
+      simp [NT.depthOf] at hx hy
+      refine ⟨by rw [e, ← hx, ← hy]; ring, ?_⟩
+      intro eij
+      exact h.disj a ha b hb hab i (by rw [hi]; simp [NT.leafIds]) (by rw [hj, eij]; simp [NT.leafIds])
+    apply nj_four_cherry s h.inv h4 _ f g hp
+    intro p hp' q hq' r hr' t ht' hnd
+    obtain ⟨ip, hip, lp⟩ := hleaf p hp'
+    obtain ⟨iq, hiq, lq⟩ := hleaf q hq'
+    obtain ⟨ir, hir, lr⟩ := hleaf r hr'
+    obtain ⟨it, hit, lt'⟩ := hleaf t ht'
+    simp only [List.nodup_cons, List.mem_cons, List.mem_singleton, not_or, List.not_mem_nil, not_false_eq_true,
+      List.nodup_nil, and_true] at hnd
+    obtain ⟨⟨n1, n2, n3⟩, ⟨n4, n5⟩, n6⟩ := hnd
+    have e1 := hdist p hp' q hq' n1 ip iq hip hiq
+    have e2 := hdist p hp' r hr' n2 ip ir hip hir
+    have e3 := hdist p hp' t ht' n3 ip it hip hit
+    have e4 := hdist q hq' r hr' n4 iq ir hiq hir
+    have e5 := hdist q hq' t ht' n5 iq it hiq hit
+    have e6 := hdist r hr' t ht' n6 ir it hir hit
+    have := hq ip lp iq lq ir lr it lt' (by simp [e1.2, e2.2, e3.2, e4.2, e5.2, e6.2])
+    simp only [QuartetAt, e1.1, e2.1, e3.1, e4.1, e5.1, e6.1]
+    exact this
+end njfour2
+
+/-- non-vacuity: the quartet 01|23 with pendant lengths 1, 2, 3, 4 and internal edge 5 -/
+def exQuartet (a b : Nat) : ℚ :=
+  if a = b then 0 else
+  let pend : Nat → ℚ := fun i => (i : ℚ) + 1
+  pend a + pend b + (if (a < 2) = (b < 2) then 0 else 5)
+
+example := nj_realises_four exQuartet
+  (by
+    intro a ha b hb
+    have ha' : a = 0 ∨ a = 1 ∨ a = 2 ∨ a = 3 := by omega
+    have hb' : b = 0 ∨ b = 1 ∨ b = 2 ∨ b = 3 := by omega
+    rcases ha' with rfl | rfl | rfl | rfl <;> rcases hb' with rfl | rfl | rfl | rfl <;> simp [exQuartet] <;> norm_num)
+  (by
+    intro p hp q hq r hr t ht hnd
+    have hp' : p = 0 ∨ p = 1 ∨ p = 2 ∨ p = 3 := by omega
+    have hq' : q = 0 ∨ q = 1 ∨ q = 2 ∨ q = 3 := by omega
+    have hr' : r = 0 ∨ r = 1 ∨ r = 2 ∨ r = 3 := by omega
+    have ht' : t = 0 ∨ t = 1 ∨ t = 2 ∨ t = 3 := by omega
+    rcases hp' with rfl | rfl | rfl | rfl <;> rcases hq' with rfl | rfl | rfl | rfl <;>
+    rcases hr' with rfl | rfl | rfl | rfl <;> rcases ht' with rfl | rfl | rfl | rfl <;>
+    first
+      | (exfalso; revert hnd; decide)
+      | (simp [QuartetAt, exQuartet]; norm_num))
+
+
+section dmatzero
+variable {α : Type} [Field α]
+
+/-- the path-length matrix of a result tree reads 0 on the diagonal … -/
+theorem dmat_diag : ∀ (t : NT α) (i : Nat), NT.dist t i i = none
+  | .leaf _, _ => rfl
+  | .node f lf g lg, i => by
+    simp only [NT.dist]
+    cases h : NT.depthOf f i with
+    | some x => simp only []; exact dmat_diag f i
+    | none => simp only []; exact dmat_diag g i
+
+/-- … and for any label that is not a leaf of the tree -/
+theorem dmat_out : ∀ (t : NT α) (i j : Nat), (i ∉ NT.leafIds t ∨ j ∉ NT.leafIds t) → NT.dist t i j = none
+  | .leaf _, _, _, _ => rfl
+  | .node f lf g lg, i, j, h => by
+    simp only [NT.leafIds, List.mem_append, not_or] at h
+    simp only [NT.dist]
+    rcases h with h | h
+    · rw [depthOf_none f i h.1]
+      cases hj : NT.depthOf f j with
+      | some y => simp only [depthOf_none g i h.2]
+      | none => simp only []; exact dmat_out g i j (Or.inl h.2)
+    · rw [depthOf_none f j h.1]
+      cases hi : NT.depthOf f i with
+      | some x => simp only [depthOf_none g j h.2]
+      | none => simp only []; exact dmat_out g i j (Or.inr h.2)
+end dmatzero
+
+/-- non-vacuity of `frac_upgma_recovers_tree` at `Frac`: the matrix of ((0:1,1:1):1,2:2) as the harness would send it -/
+def exFracM (a b : Nat) : Frac :=
+  if a < 3 ∧ b < 3 ∧ a ≠ b then (if a + b = 1 then Frac.ofNat 2 else Frac.ofNat 4) else Frac.zero
+def exSrc : NT ℚ := .node (.node (.leaf 0) 1 (.leaf 1) 1) 1 (.leaf 2) 2
+
+example : ∃ r, upgmaTree 3 exFracM = some r ∧ NT.Iso exSrc (mapNT toRat r) :=
+  frac_upgma_recovers_tree 3 exFracM
+    (by intro a b; simp only [exFracM]; split <;> [split <;> simp [Frac.ofNat]; simp [Frac.zero]])
+    exSrc
+    (by
+      intro a b
+      by_cases h : a < 3 ∧ b < 3 ∧ a ≠ b
+      · obtain ⟨ha, hb, hab⟩ := h
+        have ha' : a = 0 ∨ a = 1 ∨ a = 2 := by omega
+        have hb' : b = 0 ∨ b = 1 ∨ b = 2 := by omega
+        rcases ha' with rfl | rfl | rfl <;> rcases hb' with rfl | rfl | rfl <;>
+          first
+            | exact absurd rfl hab
+            | (simp [exFracM, exSrc, NT.dmat, NT.dist, NT.depthOf, toRat, Frac.ofNat]; norm_num)
+      · have hz : toRat (exFracM a b) = 0 := by simp [exFracM, h, toRat, Frac.zero]
+        rw [hz]
+        by_cases hab : a = b
+        · subst hab; simp [NT.dmat, dmat_diag]
+        · have : a ∉ NT.leafIds exSrc ∨ b ∉ NT.leafIds exSrc := by
+            simp only [exSrc, NT.leafIds, List.cons_append, List.nil_append, List.mem_cons, List.mem_singleton, List.not_mem_nil, or_false]
+            by_contra hc
+            simp only [not_or, not_not] at hc
+            apply h
+            refine ⟨by omega, by omega, hab⟩
+          simp [NT.dmat, dmat_out exSrc a b this])
+    (by simp [exSrc, NT.Ultra, NT.height]; norm_num) (by simp [exSrc, NT.PosInternal]) (by decide) (by decide)
+
+/-- non-vacuity of `frac_treemeasure_spec` with every hypothesis supplied (rooted, never-encoded example tree) -/
+example : ∃ v n m, treePatristic fracLen true false (fun _ => 0) 0 3 exTree = .ok v ∧ v.den ≠ 0 ∧
+    turn ratLen taxonKey exTree 0 3 = some (toRat v, n, m) :=
+  frac_treemeasure_spec true false (fun _ => 0) 0 3 exTree (by decide) (Or.inl rfl) rfl (by decide)
+    (show GoodM exTree from by
+      intro u hu
+      simp only [exTree, T.nodes, T.nodesL, List.mem_cons, List.mem_append, List.not_mem_nil, or_false, List.append_nil] at hu
+      rcases hu with rfl | (rfl | rfl | rfl | rfl | rfl) | rfl <;> simp [T.cs, Disj, T.mask, T.maskL])
+    (by unfold Good; decide)
+    (show LeafTaxa exTree from by
+      intro u hu
+      simp only [exTree, T.nodes, T.nodesL, List.mem_cons, List.mem_append, List.not_mem_nil, or_false, List.append_nil] at hu
+      rcases hu with rfl | (rfl | rfl | rfl | rfl | rfl) | rfl <;> simp [T.cs, T.taxon])
+    (by decide) (by decide)
+
+
+/-- the example tree after the re-encoding of an unrooted tree: its first basal child (three children) is dissolved, the kept
+leaf 6 absorbs the dissolved edge's length 2 -/
+def exCollapsed : T :=
+  .node 0 none none none
+    [.node 2 (some 0) (some ⟨1, 1⟩) none [], .node 3 (some 1) none none [],
+     .node 4 none none none [.node 5 (some 2) (some ⟨1, 2⟩) none []],
+     .node 6 (some 3) (some ⟨2, 1⟩) none []]
+
+theorem exCollapsed_eq : collapseBasal exTree = exCollapsed := by
+  simp [collapseBasal, exTree, exCollapsed, absorbLen, T.cs, T.len, T.withLen]
+
+/-- non-vacuity of `treemeasure_spec` on the *unrooted* path: the re-encoding collapses the basal bifurcation first -/
+example : ∃ v n m, treePatristic (α := ℚ) (fun _ => 1) false true (fun _ => 7) 0 3 exTree = .ok v ∧
+    turn (fun _ => (1 : ℚ)) taxonKey exCollapsed 0 3 = some (v, n, m) := by
+  have h := treemeasure_spec (α := ℚ) (fun _ => 1) false true (fun _ => 7) 0 3 exTree (by decide) (Or.inr rfl)
+  have ht : (if (!false && decide (exTree.cs.length = 2)) = true then collapseBasal exTree else exTree) = exCollapsed := by
+    rw [← exCollapsed_eq]; rfl
+  simp only [ht] at h
+  exact h rfl (by decide)
+    (by
+      intro u hu
+      simp only [exCollapsed, T.nodes, T.nodesL, List.mem_cons, List.mem_append, List.not_mem_nil, or_false, List.append_nil] at hu
+      rcases hu with rfl | rfl | rfl | (rfl | rfl) | rfl <;> simp [T.cs, Disj, T.mask, T.maskL])
+    (by unfold Good; decide)
+    (by
+      intro u hu
+      simp only [exCollapsed, T.nodes, T.nodesL, List.mem_cons, List.mem_append, List.not_mem_nil, or_false, List.append_nil] at hu
+      rcases hu with rfl | rfl | rfl | (rfl | rfl) | rfl <;> simp [T.cs, T.taxon])
+    (by decide) (by decide)
 
 end DendroModel.C14
